@@ -352,10 +352,12 @@ def eval (c : Ctx) : Expr → Except PyErr Val
       | none => .error .keyError
     | none => .error .attributeError
   | .cat a b => do
-    let x ← eval c a; let y ← eval c b
-    match x, y with
-    | .str s, .str t => pure (.str (s ++ t))
-    | _, _ => .error .typeError
+    match ← eval c a with
+    | .str s =>
+      match ← eval c b with
+      | .str t => pure (.str (s ++ t))
+      | _ => .error .typeError
+    | _ => .error .typeError
   | .strOf e => do let v ← eval c e; pure (.str (pyStr v))
   | .hexOf e => do
     match ← eval c e with
@@ -389,6 +391,15 @@ def eval (c : Ctx) : Expr → Except PyErr Val
     | _ => .error .typeError
   | .unsupported _ => .error .typeError
 
+/-- `name[_nocancel](p0, p1, …)tail` split of a `__str__` expression (over `.field i`); a parameter
+    may be optional (`(", " ++ p) if cond else ""`).  Emitted by the translator, re-checked in the kernel
+    (`Shape.agrees`). -/
+structure Shape where
+  head : Expr
+  params : List (Option Expr × Expr)
+  tail : Expr
+  deriving Repr, Inhabited
+
 /-- One generated decoder. -/
 structure Decoder where
   key : Nat                 -- Nat key of the trace name (big-endian bytes with a leading 1)
@@ -400,6 +411,7 @@ structure Decoder where
   supported : Bool          -- false: some part is `.unsupported` (hand-modelled elsewhere)
   fields : List Expr        -- constructor arguments (after ktraces), defaults filled in
   str : Expr                -- __str__
+  shape : Option Shape := none
   deriving Repr, Inhabited
 
 def evalFields (c : Ctx) : List Expr → Except PyErr (List Val)
